@@ -187,15 +187,20 @@ func (m *urlModule) parseURL(s string, isBase bool) *url.URL {
 	if isSpecialNetProtocol(u.Scheme) && u.Host == "" && u.Path == "" {
 		panic(m.newInvalidURLError(InvalidURL, s))
 	}
+	dropDefaultPort(u)
+	m.fixURL(u)
+	return u
+}
+
+// dropDefaultPort removes a port that is the default of the scheme, is not a number, or is empty ("host:").
+func dropDefaultPort(u *url.URL) {
 	if portStr := u.Port(); portStr != "" {
 		if port, err := strconv.Atoi(portStr); err != nil || isDefaultURLPort(u.Scheme, port) {
 			clearURLPort(u)
 		}
 	} else {
-		clearURLPort(u) // "host:" has no port
+		clearURLPort(u)
 	}
-	m.fixURL(u)
-	return u
 }
 
 func fixRawQuery(u *url.URL) {
@@ -248,6 +253,7 @@ func (m *urlModule) createURLPrototype() *goja.Object {
 		host := arg.String()
 		if _, err := url.ParseRequestURI(u.url.Scheme + "://" + host); err == nil {
 			u.url.Host = host
+			dropDefaultPort(u.url)
 			m.fixURL(u.url)
 		}
 	})
@@ -350,6 +356,7 @@ func (m *urlModule) createURLPrototype() *goja.Object {
 		if isSpecialProtocol(u.url.Scheme) == isSpecialProtocol(s) {
 			if _, err := url.ParseRequestURI(s + "://" + u.url.Host); err == nil {
 				u.url.Scheme = s
+				dropDefaultPort(u.url)
 			}
 		}
 	})
